@@ -156,7 +156,10 @@ Record InvB (c : counter) (L p : nref) (i : nat) (cn : Z) : Prop := {
   ib_child : exists ni, nth_error (kid L) i = Some ni /\
      ((node_is_loop ni = false /\ p = L ++ [i]) \/
       (node_is_loop ni = true /\
-       exists y, y <> [] /\ p = (L ++ [i]) ++ y /\ closed c (L ++ [i]) y /\ cq m 40 c (L ++ [i]) ni));
+       exists y, y <> [] /\ p = (L ++ [i]) ++ y /\ closed c (L ++ [i]) y /\ cq m 40 c (L ++ [i]) ni /\
+                 (* every child of the unit's loop is present as far as it is required: asked by
+                    _note_missing_children when that loop starts again at once *)
+                 allq m c (L ++ [i])));
   ib_passed : forall k nk, k < i -> nth_error (kid L) k = Some nk -> cq m 40 c (L ++ [k]) nk;
   ib_fresh : forall k x nx, i < k -> node_at ns ((L ++ [k]) ++ x) = Some nx -> cnt m c ((L ++ [k]) ++ x) = 0%Z;
   ib_count : forall ni, nth_error (kid L) i = Some ni -> node_is_loop ni = false \/ seg_first ni = true ->
@@ -186,7 +189,7 @@ Qed.
 Lemma invb_cq_i c L p i cn ni :
   InvB c L p i cn -> nth_error (kid L) i = Some ni -> cq m 40 c (L ++ [i]) ni.
 Proof.
-  intros I Hi. destruct (ib_child _ _ _ _ _ I) as [ni' [Hi' [[Ln _] | [Ln [y [_ [_ [_ Q]]]]]]]];
+  intros I Hi. destruct (ib_child _ _ _ _ _ I) as [ni' [Hi' [[Ln _] | [Ln [y [_ [_ [_ [Q _]]]]]]]]];
     rewrite Hi in Hi'; injection Hi' as <-; [|exact Q].
   destruct ni as [id ty nm u q rep pm | sn]; [discriminate|].
   cbn [cq]. intros _. rewrite (ib_count _ _ _ _ _ I _ Hi (or_introl eq_refl)). exact (ib_cn _ _ _ _ _ I).
@@ -598,7 +601,7 @@ Proof.
   pose proof (forallb_nomatch sg _ RF) as RF'. unfold rivals in RF'. rewrite Hj in RF'.
   destruct n as [id ty nm u q rep pm | sx]; [|discriminate].
   destruct (ib_p _ _ _ _ _ I) as [snp Hp].
-  destruct (ib_child _ _ _ _ _ I) as [ni [Hi [[Lni Epi] | [Lni [y0 [Hy0 [Epi [Cl Qi]]]]]]]].
+  destruct (ib_child _ _ _ _ _ I) as [ni [Hi [[Lni Epi] | [Lni [y0 [Hy0 [Epi [Cl [Qi AQ]]]]]]]]].
   - (* the last unit was a segment child *)
     apply (step_loop_generic c c2 L p i cn j (NLoop id ty nm u q rep pm) z [] sg w sc cl ls Hw I Epi); try assumption.
     + intros k K1 K2. cbn [length] in K2. lia.
@@ -649,7 +652,7 @@ Proof.
            replace (L ++ j :: firstn (S k) y0) with ((L ++ [j]) ++ firstn (S k) y0) by (rewrite <- app_assoc; reflexivity).
            exact Hh.
       * intros f pop. rewrite Hw.
-        destruct (found_restart_at m WF (mk_args d sg sc cl ls) p (removelast p) (L ++ [j]) _ c c2 [] _ s0 rest no Cne Hn Ec Hol (EC sc cl ls) f pop)
+        destruct (found_restart_at m WF (mk_args d sg sc cl ls) p (removelast p) (L ++ [j]) _ c c2 [] _ s0 rest no snp Cne Hn Ec Hol Hp AQ (EC sc cl ls) f pop)
           as [pop' [push G]].
         exists pop', push. exact G.
     + (* the loop is found from L *)
@@ -673,7 +676,7 @@ Definition PreInst (c : counter) (C : nref) (z : nat) : Prop :=
 
 (* what an instance of C leaves: the last item is below C and every loop from there up to C can be left *)
 Definition PostInst (c : counter) (C : nref) (nC : node) (p : nref) : Prop :=
-  vseg p /\ exists y, y <> [] /\ p = C ++ y /\ closed c C y /\ cq m 40 c C nC.
+  vseg p /\ exists y, y <> [] /\ p = C ++ y /\ closed c C y /\ cq m 40 c C nC /\ allq m c C.
 
 Lemma shape_valid sg z C nC :
   shape sg z C nC -> node_at ns C = Some nC ->
@@ -847,7 +850,7 @@ Proof.
     - exact (ib_passed _ _ _ _ _ I _ _ K Hk).
     - subst k. exact (invb_cq_i _ _ _ _ _ _ I Hk).
     - apply skippable_cq. exact (RS _ _ K Hk). }
-  exists (i :: y). split; [discriminate|]. split; [exact Ep|]. split.
+  exists (i :: y). split; [discriminate|]. split; [exact Ep|]. split; [|split; [|exact Qall]].
   - intros k K. destruct k as [|k].
     + cbn [firstn]. rewrite app_nil_r. intros ic Hin. apply Qall. apply (in_cands _ _ _ Hin).
     + apply Ex; [lia | exact K].
@@ -941,7 +944,7 @@ Proof.
     assert (z = S z0) as ->.
     { apply (f_equal (@length nat)) in Et. rewrite !app_length in Et. cbn [length] in Et. rewrite !repeat_length in Et. lia. }
     pose proof (pre_inst_down _ _ _ PI) as PI0.
-    destruct (IHinst c0 z0 sg U0' H0 eq_refl Sh0 w PI0) as [w1 [R1 [[VP [y [Hy [Ey [Cl Q]]]]] FR1]]].
+    destruct (IHinst c0 z0 sg U0' H0 eq_refl Sh0 w PI0) as [w1 [R1 [[VP [y [Hy [Ey [Cl [Q AQ]]]]]] FR1]]].
     rewrite last_ref_cons in IHbody. cbn [fst] in IHbody.
     assert (KW : kid W = c0 :: rest) by exact HK.
     assert (I : InvB (w_counter w1) W (last_ref U0' ((W ++ [0]) ++ repeat 0 (S z0))) 0 1).
@@ -996,7 +999,7 @@ Proof.
     destruct (inst_shape _ _ Hinst n Hn) as [z [sg' [U'' [EU Sh]]]]. injection EU as -> <- <-.
     destruct (step_loop (w_counter w) L p i cn j n sg z w eq_refl HL I Le Hj Ln Hpos B Prem Sh RF) as [c2 [SO AE]].
     destruct (pre_inst_of _ _ _ _ _ _ _ _ _ _ I Le Hj Prem Sh AE) as [PI Cnt].
-    destruct (IHinst n z sg U' Hn eq_refl Sh (Wc c2) PI) as [w1 [R1 [[VP [y [Hy [Ey [Cl Q]]]]] FR1]]].
+    destruct (IHinst n z sg U' Hn eq_refl Sh (Wc c2) PI) as [w1 [R1 [[VP [y [Hy [Ey [Cl [Q AQ]]]]]] FR1]]].
     rewrite last_ref_cons in IHbody. cbn [fst] in IHbody.
     assert (Cne : L ++ [j] <> []) by apply snoc_not_nil.
     assert (F : forall r nr, node_at ns r = Some nr -> r <> L ++ [j] -> strict_prefix_b (L ++ [j]) r = false ->
